@@ -264,7 +264,20 @@ func visitInstr(fr *frame, instr ssa.Instruction) continuation {
 		if addr == nil {
 			r.targetPanicStr(fr, "runtime error: invalid memory address or nil pointer dereference")
 		}
-		store(deref(instr.Addr.Type()), addr, fr.get(instr.Val))
+		if sc, ok := r.symCells[addr]; ok {
+			r.symStore(sc, fr.get(instr.Val))
+		} else {
+			store(deref(instr.Addr.Type()), addr, fr.get(instr.Val))
+		}
+		if r.inInit > 0 {
+			if g, ok := instr.Addr.(*ssa.Global); ok {
+				if _, isPoison := fr.get(instr.Val).(poisonVal); isPoison {
+					r.poisoned[g] = true
+				} else {
+					r.initWritten[g] = true
+				}
+			}
+		}
 
 	case *ssa.If:
 		succ := 1
@@ -355,12 +368,20 @@ func visitInstr(fr *frame, instr ssa.Instruction) continuation {
 		idx := fr.get(instr.Index)
 		switch x := x.(type) {
 		case []value:
+			if s, ok := idx.(Sym); ok && scalarElems(x) {
+				fr.env[instr] = r.symIndexAddr(fr, x, s)
+				break
+			}
 			fr.env[instr] = &x[r.intIndex(fr, idx, len(x), "index")]
 		case *value: // *array
 			if x == nil {
 				r.targetPanicStr(fr, "runtime error: invalid memory address or nil pointer dereference")
 			}
 			a := (*x).(array)
+			if s, ok := idx.(Sym); ok && scalarElems(a) {
+				fr.env[instr] = r.symIndexAddr(fr, a, s)
+				break
+			}
 			fr.env[instr] = &a[r.intIndex(fr, idx, len(a), "index")]
 		default:
 			panic(fmt.Sprintf("unexpected x type in IndexAddr: %T", x))
@@ -372,10 +393,22 @@ func visitInstr(fr *frame, instr ssa.Instruction) continuation {
 
 		switch x := x.(type) {
 		case array:
+			if s, ok := idx.(Sym); ok && scalarElems(x) {
+				fr.env[instr] = r.symSelect(fr, x, s)
+				break
+			}
 			fr.env[instr] = x[r.intIndex(fr, idx, len(x), "index")]
 		case string:
+			if s, ok := idx.(Sym); ok {
+				fr.env[instr] = r.symSelect(fr, strBytes(x), s)
+				break
+			}
 			fr.env[instr] = x[r.intIndex(fr, idx, len(x), "index")]
 		case *symstr:
+			if s, ok := idx.(Sym); ok {
+				fr.env[instr] = r.symSelect(fr, x.b, s)
+				break
+			}
 			fr.env[instr] = x.b[r.intIndex(fr, idx, len(x.b), "index")]
 		default:
 			panic(fmt.Sprintf("unexpected x type in Index: %T", x))
@@ -550,6 +583,9 @@ func (r *Run) callSSA(caller *frame, callpos token.Pos, fn *ssa.Function, args [
 			}
 		}
 		if fn.Blocks == nil {
+			if r.inInit > 0 {
+				return poisonVal{}
+			}
 			r.inconclusive("unsupported: no code for function %s\n%s", key, caller.stack())
 		}
 	}
